@@ -545,6 +545,23 @@ def narrowing_sites(ctx, bodies):
     return out
 
 
+def conjuncts(c):
+    """the conjuncts of a condition (a single condition is its own only conjunct)"""
+    return list(c[1]) if isinstance(c, T.Tm) and c[0] == 'and' else [c]
+
+
+def guarded_by(t, guard):
+    """t = ite(guard && rest, X, Y) (or the nested spelling ite(guard, ite(rest, X, Y), Y)): returns (rest, X, Y), rest = TRUE when
+    the guard is the whole condition; None when t is not guarded that way.  ite normal forms flatten nested guards into conjunctions."""
+    if not (isinstance(t, T.Tm) and t[0] == 'ite'):
+        return None
+    cs = conjuncts(t[1])
+    if any(x is guard for x in cs):
+        rest = [x for x in cs if x is not guard]
+        return (T.land(*rest) if rest else T.TRUE), t[2], t[3]
+    return None
+
+
 def carried_keys(ls):
     """carried places of a loop that actually change: unit accumulators of for_each / fold-to-() and other identity-carried
     places (next is the loop-head value itself) are bookkeeping of the iterator form, not state"""
